@@ -711,6 +711,7 @@ Section Ok.
         destruct err as [e|].
         + cbn [err_ok] in B. pose proof (skip_ws_ok inp (epos e) m B) as [D _].
           injection H as <-. cbn [pres_ok err_ok] in *. split; [exact A|]. split; [|exact C].
+          destruct (is_wserr e); [exact B|].
           destruct (epos e <? fst (skip_ws inp (epos e) m)); cbn [err_ok mk_err epos]; lia.
         + pose proof (trim_nodes_ok m res None A I) as [D E].
           destruct (trim_nodes inp m res None) as [res' wserr]; cbn [fst snd] in *.
@@ -921,6 +922,7 @@ Section Sim.
         destruct (Hpok _ _ _ _ _ _ Hpos Hc E) as (A & B & _).
         destruct err as [e|]; cbn [shift_oerr option_map].
         + cbn [err_ok] in B. cbn [shift_err epos]. rewrite skip_ws_shift by exact B. cbn [fst].
+          change (is_wserr (shift_err d e)) with (is_wserr e). destruct (is_wserr e); [reflexivity|].
           rewrite ltb_shift. destruct (epos e <? fst (skip_ws inp (epos e) m)); reflexivity.
         + change (@None perr) with (shift_oerr d None) at 1. rewrite trim_nodes_shift by exact A.
           destruct (trim_nodes inp m res None) as [res' wserr]; cbn [fst snd].
